@@ -377,6 +377,9 @@ fn main_c01(out: &Path, tier: &str, seed: u64) {
                 seen_prog.push(c.prog);
                 if failures.len() < 4 {
                     let shr = shrink::shrink(out, &r.progs[c.prog], &c.args, failures.len());
+                    let replay_path = out.join("shrink").join(format!("replay_{}.cairo", failures.len()));
+                    std::fs::create_dir_all(out.join("shrink")).ok();
+                    std::fs::write(&replay_path, shr.0.replay_source(&shr.1)).ok();
                     failures.push(serde_json::json!({
                         "why": "the compiled program does not compute what the source means (independent interpreter vs pipeline)",
                         "crate": r.idx, "program": r.progs[c.prog].tag, "args": c.args.iter().map(|a| a.show()).collect::<Vec<_>>(),
@@ -385,6 +388,8 @@ fn main_c01(out: &Path, tier: &str, seed: u64) {
                         "shrunk_source": shr.0.cairo(), "shrunk_args": shr.1.iter().map(|a| a.show()).collect::<Vec<_>>(),
                         "shrunk_expected": format!("{:?}", shr.2), "shrunk_observed": shr.3.show(),
                         "shrink_rounds": shr.4,
+                        "replay_file": replay_path.display().to_string(),
+                        "replay": format!("cairo-run --single-file {} (expected: {:?})", replay_path.display(), shr.2),
                         "entry": format!("::{}", shr.0.fn_name(shr.0.entry())),
                     }));
                 } else {
